@@ -385,3 +385,44 @@ func c15sequence(nev, steps int) {
 func Harness_C15_sequence_0_4() { c15sequence(0, 4) }
 func Harness_C15_sequence_1_5() { c15sequence(1, 5) }
 func Harness_C15_sequence_2_6() { c15sequence(2, 6) }
+
+// Publisher-side lemma: "closing a subscriber never blocks publishers".  A bus whose loop no
+// longer reads its publish channel (it is inside its shutdown path, e.g. handing its unsubscribe
+// notice to the parent) starts shutting down at an arbitrary moment relative to the Publish call;
+// Publish must return once shutdown has BEGUN, it must not wait for the shutdown to complete
+// (the parent that would let it complete may be the very caller of Publish).
+func Harness_C15_publish_closing() {
+	b := &bus{subscriptions: map[*bus]bool{}, pubch: make(chan Event), subch: make(chan chan<- Subscriber), unsubch: make(chan *bus), lc: lifecycle.New(),
+		eventch: make(chan Event), parentch: make(chan *bus)}
+	if verif_Symbolic() {
+		// shutdown begins at some point: before the call, or while the publisher waits
+		verif_EnvFinal(b.lc.ShuttingDown(), "closing", 1, func() interface{} { verif_Pick("closing", 1); return struct{}{} })
+		verif_OnQuiescent(func() {
+			verif_Assert(false, "C15 a publisher is never blocked by a subscriber that is closing")
+		})
+		verif_Steps(0)
+		err := b.Publish(1)
+		verif_Reach("returned")
+		verif_Assert(err == ErrNotRunning, "C15 publishing to a closing subscriber reports not-running")
+		return
+	}
+	early := false
+	for _, st := range verif_Schedule() {
+		// the poll came too early iff the schedule records the close after it
+		if k, _, _ := verif_Step(st); k == "closing" {
+			early = true
+		}
+	}
+	_ = early
+	res := make(chan error, 1)
+	go func() { res <- b.Publish(1) }()
+	time.Sleep(20 * time.Millisecond)
+	b.lc.ShutdownInitiated(nil) // shutdown begins while the publisher waits; nobody completes it
+	select {
+	case err := <-res:
+		verif_Reach("returned")
+		verif_Assert(err == ErrNotRunning, "C15 publishing to a closing subscriber reports not-running")
+	case <-time.After(time.Second):
+		verif_Assert(false, "C15 a publisher is never blocked by a subscriber that is closing")
+	}
+}
